@@ -95,6 +95,37 @@ def work(args):
         out['batch_le'] = [[int(b) for b in row] for row in B.reshape(len(out['cases']), -1)]
     except Exception as ex:
         out['batch_error'] = '%s: %s' % (type(ex).__name__, ex)
+    # (iii) the same residual error handed over in the other shapes the methods accept: dense (1, 2n), int64, csr row, and a
+    # csr row with explicitly STORED zeros (what `total = correction + error; total.data %= 2` leaves behind)
+    from scipy.sparse import csr_matrix as _csr
+
+    def forms(e):
+        e = np.asarray(e, dtype='uint8')
+        yield 'dense(1,2n)', e.reshape(1, -1)
+        yield 'int64', e.astype('int64')
+        yield 'csr', _csr(e.reshape(1, -1))
+        a = np.zeros(2 * n, dtype='uint8')
+        for j in rng.sample(range(2 * n), min(2 * n, 3)):
+            a[j] = 1
+        t = (_csr(a.reshape(1, -1)) + _csr(((e + a) % 2).reshape(1, -1))).tocsr()     # = e + 2a: entries 2 become stored zeros
+        t.data %= 2
+        yield 'csr with stored zeros', t
+    fd = []
+    for ci, o in enumerate(out['cases'][:40]):
+        e = vec(n, o['x'], o['z'])
+        for form, arg in forms(e):
+            try:
+                got = {'cs': bool(code.in_codespace(arg)), 'le': [int(b) for b in np.asarray(code.logical_errors(arg)).ravel()],
+                       'ile': bool(code.is_logical_error(arg)), 'ok': bool(code.is_success(arg))}
+            except Exception as ex:
+                got = {'exception': '%s: %s' % (type(ex).__name__, ex)}
+            exp = {k_: o[k_] for k_ in ('cs', 'le', 'ile', 'ok')}
+            if got != exp:
+                fd.append({'case': ci, 'form': form, 'got': got, 'dense': exp, 'x': o['x'], 'z': o['z']})
+                break
+        if len(fd) >= 3:
+            break
+    out['form_diff'] = fd
     # (ii) an object that was USED before being deformed must answer like a fresh one
     if rec['deformation']:
         import panqec.codes as pc
